@@ -472,4 +472,4 @@ def stratified(
     all_subs = np.vstack((nonzero_subs, zero_subs))
     all_vals = np.concatenate((nonzero_vals, zero_vals))
     all_weights = np.concatenate((nonzero_weights, zero_weights))
-    return all_subs, all_vals.squeeze(), all_weights
+    return all_subs, all_vals, all_weights
